@@ -1,4 +1,5 @@
 mod common;
+mod c06;
 mod c12;
 mod c13;
 mod c14;
@@ -59,6 +60,7 @@ fn main() {
         }
     }));
     let rep = match prop.as_str() {
+        "c06" => c06::run(&opts),
         "c12" => c12::run(&opts),
         "c13" => c13::run(&opts),
         "c14" => c14::run(&opts),
